@@ -98,7 +98,7 @@ REGISTRY["C20"] = dict(
     technique="static analysis of main's MIR: flag->builder table extraction with polarity, value-flow from the library result to the single output write, error-handler shape (eprintln + non-zero exit), `?` propagation of I/O results",
     claim=(
         "Structural clauses over `main`: flag/builder pairs with polarity equal the documented map and the fully built Options reaches from_path/from_string, the load-path list being passed as collected from clap (never sorted, de-duplicated or filtered); the only output write is write_all of exactly the Ok payload, "
-        "to stdout or the OUTPUT file; the Err path prints the error with eprintln! and exits with a non-zero constant before any write; I/O results propagate with `?`, and the sink is written directly (a BufWriter/LineWriter would need a propagated flush on every path after the write). "
+        "to stdout or the OUTPUT file, which is opened create+write+truncate; the Err path prints the error with eprintln! and exits with a non-zero constant before any write; I/O results propagate with `?`, and the sink is written directly (a BufWriter/LineWriter would need a propagated flush on every path after the write). "
         "NOT decided: process-level behaviour as such (clap parsing, OS errors, what the library returns)."
     ),
     explanation="Clauses of DESIGN.md §3 C20, decided on the MIR of grass::main and its closures in the current tree. NOT decided: clap's parsing, OS-level behaviour, equality of CLI and library output as executed.",
@@ -122,7 +122,7 @@ REGISTRY["C17"] = dict(
     technique="static analysis: must-depend guard facts at every construction of MediaQueryMergeResult::Empty/Unrepresentable; arm-action table extraction of merge_media_queries and visit_media_rule",
     claim=(
         "Decision-structure clauses: every Empty result of MediaQuery::merge is control-dependent on this_type == other_type, on exactly one query being negated and on the subset test; "
-        "double negation with different types is Unrepresentable; merge_media_queries maps Empty/Unrepresentable/Success to skip/None/push over the cartesian product; a merged rule passes an enclosing @media only if all of its queries are merge sources (Iterator::all); "
+        "double negation with different types is Unrepresentable; merge_media_queries maps Empty/Unrepresentable/Success to skip/None/push over the cartesian product; a merged rule passes an enclosing @media only if all of its queries are merge sources (Iterator::all); merge_media_queries returns the list built from the merge results, never an input list; "
         "visit_media_rule drops an empty intersection before creating a node and keeps unmergeable queries nested. (c) the outcome category (Empty / Unrepresentable / Success) of merge, extracted as predicate valuations per result site, equals a transliteration of dart-sass's merge on all 4608 combinations of conjunction, modifier, type (none/all/two concrete) and subset relations. NOT decided: which modifier/type/conditions a Success carries."
     ),
     explanation="Clauses of DESIGN.md §3 C17 on MIR facts of the current tree. NOT decided: that the merged query is the logical intersection for all environments.",
@@ -171,7 +171,7 @@ REGISTRY["C15"] = dict(
     claim=(
         "Table and constructor clauses: (a) all 148 CSS named colours (independent table in spec/) are in name_to_rgba with alpha 0xFF, `transparent` is rgba(0,0,0,0), rgba_to_name is a right inverse; "
         "(b) Color's fields are private, struct literals occur only in new_rgba/new_hsla/new, the raw constructors are called only from the reviewed set, and from_rgba/from_rgba_fn/from_hwb/from_hsla clamp every parameter "
-        "(from_hsla's alpha obligation is checked at its callers, and update_value — the root those callers rely on — clamps in its Adjust arm and returns the range-checked parameter in its Change arm; each reviewed caller may use only the raw constructor it was reviewed for — hex literals new_rgba, the named table new); (c) compressed output writes a name only if it fits and 3-digit hex only under can_use_short_hex, which requires is_symmetrical_hex of red, green and blue together; (d) interval analysis: every hue handed to hue_to_rgb lies in [-1, 2] turns (it corrects by one turn at most), with `Number % 360` shown to be the non-negative modulo. "
+        "(from_hsla's alpha obligation is checked at its callers, and update_value — the root those callers rely on — clamps in its Adjust arm and returns the range-checked parameter in its Change arm; each reviewed caller may use only the raw constructor it was reviewed for — hex literals new_rgba, the named table new); (c) compressed output writes a name only if it fits and 3-digit hex only under can_use_short_hex, which requires is_symmetrical_hex of red, green and blue together; (e) rgb()/rgba() and scale/adjust/change-color hand fuzzy_round'ed channels to the clamping constructors; (d) interval analysis: every hue handed to hue_to_rgb lies in [-1, 2] turns (it corrects by one turn at most), with `Number % 360` shown to be the non-negative modulo. "
         "NOT decided: HSL/HWB round trips and the colour-function laws (numeric)."
     ),
     explanation="Clauses C15-a..c of DESIGN.md §3 on MIR/HIR facts of the current tree and spec/css_named_colors.json. NOT decided: numeric conversions, rounding at .5 boundaries, colour-function identities.",
@@ -184,7 +184,7 @@ REGISTRY["C14"] = dict(
     claim=(
         "Registry and signature clauses: (a) every sass:list/map/string member with a documented global alias is bound to the same fn item as that alias, no duplicate or underscore registrations; "
         "(b) every constant (position, name) read by the list/map/string built-ins and every max_args equals the documented signature; "
-        "(c) str-length/slice/index/insert count positions with chars(), never with byte lengths or byte indices; (d) nested-key map walks reassign their cursor map on every path through an iteration. NOT decided: index arithmetic, separator/bracket inference, error cases (value semantics)."
+        "(c) str-length/slice/index/insert count positions with chars(), never with byte lengths or byte indices; (d) nested-key map walks reassign their cursor map on every path through an iteration; (e) to-upper-case/to-lower-case use the ASCII case operations only. NOT decided: index arithmetic, separator/bracket inference, error cases (value semantics)."
     ),
     explanation="Clauses C14-a..c of DESIGN.md §3 on MIR facts of the current tree and spec/builtin_{aliases,signatures}.json. NOT decided: the values the functions return.",
     assumptions=TRUSTED + ["spec tables transcribed from the Sass documentation"],
@@ -194,7 +194,7 @@ REGISTRY["C12"] = dict(
     level="other",
     technique="static analysis: predicate-sensitive guard analysis of the member views (sibling agreement across the MapView interface), must-reach flow of show/hide lists, registry table agreement, guard/pairing rules for the module cache and the active-module set, must-pass-through of assert_public at namespaced constructions",
     claim=(
-        "Structural clauses: (a) Public/Limited/Prefixed member views forward get/remove/insert only under their predicate and list keys consistently; (b) @forward show/hide lists reach LimitedMapView on top of the prefixed view; "
+        "Structural clauses: (a) Public/Limited/Prefixed member views forward get/remove/insert only under their predicate and list keys consistently; (b) @forward show/hide lists reach LimitedMapView on top of the prefixed view, and forwarded_map returns the map unwrapped only when there is no show list at all (an empty show list hides everything); "
         "(c) sass:math/meta/selector/color members equal their global aliases; (d) execute() evaluates only on a cache miss and registers the module, load_module brackets execute with the active-module set and errors on a loop; "
         "(e) every namespaced member reference built by the parser passed assert_public; (f) load_module receives a configuration built from the rule's own `with` clause or an empty one at every call outside @forward (a plain `@use` never inherits the enclosing module's configuration); (g) the module cache / active-module set are keyed by Fs::canonicalize and StdFs::canonicalize is exactly std::fs::canonicalize (no shortcut that keeps symlinked spellings apart); (h) in visit_forward_rule the names exempt from remove_used_configuration are the unguarded ones (filtered) while the names kept for assert_configuration_is_empty are all of the rule's own (unfiltered). NOT decided: the rest of `with` configuration semantics, diamond/emission order, namespace shadowing."
     ),
@@ -208,7 +208,7 @@ REGISTRY["C16"] = dict(
     claim=(
         "Crash and printing-table clauses: (a) every unit conversion in value/calculation.rs is guarded on the same pair on every path; (b) the full truth table of parenthesize_calculation_rhs equals "
         "`a o (b . c)` needing parentheses under real arithmetic, and the serializer uses it (right) and precedence() (left); (c) a negative right operand is negated and flips +/-; "
-        "(d) unsimplified min/max/clamp and +/- operations are built only after verify_compatible_numbers; (e) every conversion in the folding code goes from the operand's own unit to the unit of the operand it is compared with. NOT decided: numeric equivalence of source and output expressions."
+        "(d) unsimplified min/max/clamp and +/- operations are built only after verify_compatible_numbers; (e) every conversion in the folding code goes from the operand's own unit to the unit of the operand it is compared with; (f) verify_compatible_numbers tests has_possibly_compatible_units inside two nested loops (every pair, the relation is not transitive). NOT decided: numeric equivalence of source and output expressions."
     ),
     explanation="Clauses of DESIGN.md §3 C16 on MIR facts of the current tree. NOT decided: that simplification preserves the computed value for all inputs.",
     assumptions=TRUSTED,
@@ -220,7 +220,7 @@ REGISTRY["C18"] = dict(
     claim=(
         "Shared-table clauses: (a) the StylesheetParser/BaseParser methods each front end overrides are exactly the reviewed hook sets and is_indented/is_plain_css return the fixed constants; "
         "(b) TokenLexer::next maps exactly FF, CR, CRLF to one `\\n`, consumes the LF after CR with one call and advances the byte position by 1 on exactly the paths that consumed it; (c) Identifier is only built by from_str, every Identifier built there wraps a normalised get_or_intern, scope maps are keyed by it, and the @forward prefix (a plain String matched against normalised names) is read with normalisation at every AstForwardRule construction; "
-        "(d) CssParser::parse_at_rule rejects exactly dart-sass's set of Sass-only at-rules and every listed Sass-only construct has an is_plain_css() guard leading to Err; (e) the tab/space flags of the indented syntax are re-initialised for every line peek_indentation scans; (f) the BOM skip sits in a parser method no front end overrides. "
+        "(d) CssParser::parse_at_rule rejects exactly dart-sass's set of Sass-only at-rules and every listed Sass-only construct has an is_plain_css() guard leading to Err; (e) the tab/space flags of the indented syntax are re-initialised for every line peek_indentation scans; (f) the BOM skip sits in a parser method no front end overrides; (g) the scan for a file's leading @use/@forward rules skips variable declarations, loud and silent comments alike. "
         "NOT decided: that SCSS and indented inputs produce identical CSS."
     ),
     explanation="Clauses C18-a..d of DESIGN.md §3 on HIR/MIR facts of the current tree. NOT decided: behavioural equality of the front ends on concrete programs.",
